@@ -185,7 +185,13 @@ def field_case(draw):
     if elements == "vertices":
         c["cad"] = draw(st.integers(0, 3)) == 0
     c.update(draw(extras()))
+    c["ops"] = draw(OPS)
     return c
+
+
+# read-out histories: the usual one, export first, export twice, flag - export - flag
+OPS = st.sampled_from([["flag"], ["flag"], ["export", "flag"], ["export", "export", "flag"], ["flag", "export", "flag"],
+                       ["flag", "export"], ["export", "flag", "export", "flag"]])
 
 
 SCALES = [1.0, 1.0, 1.0, 1e-3, 1e3, 1e-6, 1e6]
@@ -202,7 +208,7 @@ def step(draw):
     elements = draw(st.sampled_from(["faces", "faces", "vertices"]))
     return {"elements": elements, "order": draw(ORDERS), "features": draw(st.booleans()),
             "n_smooth": draw(st.sampled_from([0, 0, 1, 2])), "alpha": draw(st.sampled_from(ALPHAS)), "cotan": draw(st.booleans()),
-            "smooth_normals": draw(st.booleans()), "cad": False, "verbose": draw(st.integers(0, 5)) == 0}
+            "smooth_normals": draw(st.booleans()), "cad": False, "verbose": draw(st.integers(0, 5)) == 0, "ops": draw(OPS)}
 
 
 @st.composite
@@ -424,6 +430,90 @@ def forced_zeros(L, A):
     amp = np.sqrt(np.sum(np.abs(U[:, sel]) ** 2, axis=1))
     # dense eigenvectors carry an error ~ eps * |H| / gap (cotangent weights of 1e8 occur on right-angled pairs)
     return amp <= max(1e-7, 1e-14 * float(np.max(np.abs(H)))) * float(np.max(amp))
+
+
+def snapshot_connection(ff, n_el):
+    """copies (never views) of the connection's bases and transports"""
+    X = np.array([vec3(ff.conn.base(i)[0]) for i in range(n_el)], dtype=float).reshape(-1, 3).copy()
+    Y = np.array([vec3(ff.conn.base(i)[1]) for i in range(n_el)], dtype=float).reshape(-1, 3).copy()
+    T = {k: float(v) for k, v in ff.conn._transport.items()} if isinstance(getattr(ff.conn, "_transport", None), dict) else None
+    return {"X": X, "Y": Y, "T": T}
+
+
+def read_singularities(case, ff, mesh, ref, order, ctx, hist=""):
+    """flag_singularities() of a face field + the quantum / index-sum oracles. Returns the index array or None."""
+    nV = len(case["V"])
+    ok, _ = ctx.call("flag_singularities", quiet(ff.flag_singularities))
+    if not ok: return None
+    if not ctx.check(mesh.vertices.has_attribute("singuls"), "no-singuls-attribute", "flag_singularities() created no 'singuls' attribute"):
+        return None
+    sing = mesh.vertices.get_attribute("singuls")
+    idxs = np.array([float(sing[v]) for v in range(nV)])
+    bv = set(ref.border_vertices())
+    q = 4.0 / order
+    for v in range(nV):
+        if v in bv or idxs[v] == 0:
+            continue
+        r = idxs[v] / q
+        if not ctx.check(abs(r - round(r)) <= 1e-6, "index-not-quantised",
+                         f"{hist}interior vertex {v}: index {idxs[v]!r} is not a multiple of 4/order = {q:.6g} (order {order})"):
+            return None
+    chi = ref.euler()
+    n_unflagged = int(np.sum(idxs == 0))
+    tol = n_unflagged * 1e-3 * 2 / math.pi + 1e-6
+    ctx.label("singular-interior>0" if any(idxs[v] != 0 for v in range(nV) if v not in bv) else "singular-interior=0")
+    if not ctx.check(abs(float(np.sum(idxs)) - 4 * chi) <= tol, "index-sum",
+                     f"{hist}indices sum to {float(np.sum(idxs))!r}, expected 4*chi = {4 * chi} (tolerance {tol:.2e}, {n_unflagged} "
+                     f"unflagged vertices, order {order})"):
+        return None
+    return idxs
+
+
+def check_export(case, poly, snap, var, V, medges, order, n_el, elements, ctx, hist=""):
+    """export_as_mesh(): per element a centre and `order` branch tips at distance |var|*L (L = mean edge length / 3) in the
+    directions (arg var + 2 k pi)/order of the element's tangent basis (bases read BEFORE the export)."""
+    A3 = np.array(V, dtype=float)
+    L = float(np.mean([np.linalg.norm(A3[b] - A3[a]) for (a, b) in medges])) / 3
+    try:
+        P = np.array([[float(x) for x in v] for v in poly.vertices], dtype=float).reshape(-1, 3)
+        E = [tuple(int(x) for x in e) for e in poly.edges]
+    except Exception as e:
+        return ctx.check(False, "export-unreadable", f"{hist}export_as_mesh() returned {type(poly).__name__}: {type(e).__name__}: {e}")
+    n = order + 1
+    if not ctx.check(P.shape == (n_el * n, 3) and len(E) == n_el * order, "export-size",
+                     f"{hist}exported polyline has {P.shape[0]} vertices / {len(E)} edges, expected {n_el * n} / {n_el * order}"):
+        return False
+    if not ctx.check(sorted(tuple(sorted(e)) for e in E) == sorted((n * i, n * i + k) for i in range(n_el) for k in range(1, n)), "export-edges",
+                     f"{hist}exported edges are not centre -> branch tip for every element"):
+        return False
+    if elements == "faces":
+        C = np.array([(A3[f[0]] + A3[f[1]] + A3[f[2]]) / 3 for f in case["F"]])
+    else:
+        C = A3
+    sc = max(L, float(np.max(np.abs(A3))) * 1e-9)
+    for i in range(n_el):
+        if not ctx.check(float(np.linalg.norm(P[n * i] - C[i])) <= 1e-9 * max(sc, float(np.max(np.abs(C[i])))), "export-centre",
+                         f"{hist}element {i}: exported centre {P[n * i].tolist()} is not the element's reference point {C[i].tolist()}"):
+            return False
+        m = abs(var[i])
+        for k in range(1, n):
+            d = P[n * i + k] - P[n * i]
+            if not ctx.check(abs(float(np.linalg.norm(d)) - m * L) <= 1e-7 * L + 1e-12 * float(np.max(np.abs(C[i]))), "export-branch-length",
+                             f"{hist}element {i} branch {k}: length {float(np.linalg.norm(d))!r}, expected |var| * mean edge length / 3 = {m * L!r}"):
+                return False
+            if m <= 1e-10:
+                continue
+            z = complex(float(np.dot(d, snap["X"][i])), float(np.dot(d, snap["Y"][i]))) / (m * L)
+            if not ctx.check(abs(z ** order - var[i] / m) <= 1e-6, "export-branch-direction",
+                             f"{hist}element {i} branch {k}: direction {z} in the element's basis, its power {order} is {z ** order} but var = {var[i]}"):
+                return False
+        tips = [P[n * i + k] - P[n * i] for k in range(1, n)]
+        if m > 1e-10 and order > 1:
+            dmin = min(float(np.linalg.norm(tips[a] - tips[b])) for a in range(order) for b in range(a))
+            if not ctx.check(dmin >= 0.5 * 2 * m * L * math.sin(math.pi / order), "export-branches-coincide",
+                             f"{hist}element {i}: two of the {order} exported branches coincide"):
+                return False
+    return True
 
 
 def partition(case, mesh, ff, ref, medges):
@@ -660,32 +750,48 @@ def check_field(case, mesh, ref, ctx, where="", rng_seed=None):
                           f"{kind}: {elements[:-1]} {np.array(free)[okm][k]}: var = {got[k]}, normalised solution of L_II x = -L_IB var_B "
                           f"is {exp_[k]} (|x| = {abs(x[okm][k]):.3e}, cond {cond:.2e}, order {order})")
 
-    # (3) singularities of the face field
-    if elements == "faces":
-        ok, _ = ctx.call("flag_singularities", quiet(ff.flag_singularities))
-        if not ok: return
-        if not ctx.check(mesh.vertices.has_attribute("singuls"), "no-singuls-attribute", "flag_singularities() created no 'singuls' attribute"):
-            return
-        sing = mesh.vertices.get_attribute("singuls")
-        idxs = np.array([float(sing[v]) for v in range(nV)])
-        bv = set(ref.border_vertices())
-        q = 4.0 / order
-        for v in range(nV):
-            if v in bv or idxs[v] == 0:
+    # (3) read-out history: export_as_mesh / flag_singularities in the drawn order (default: flag once). Reading a field out
+    # must not change it: every flag gives quantised indices summing to 4*chi, all flags of one history agree, every export is
+    # the field's frames, and var / the connection come back untouched
+    ops = list(case.get("ops") or ["flag"])
+    ctx.label("ops=" + "".join(o[0] for o in ops))
+    small = n_el <= 400
+    snap = snapshot_connection(ff, n_el) if small else None
+    first_sing = None
+    for io, op in enumerate(ops):
+        hist = f"after {ops[:io + 1]}: "
+        if op == "export":
+            if not small:
                 continue
-            r = idxs[v] / q
-            if not ctx.check(abs(r - round(r)) <= 1e-6, "index-not-quantised",
-                             f"interior vertex {v}: index {idxs[v]!r} is not a multiple of 4/order = {q:.6g} (order {order})"):
+            ok, poly = ctx.call("export_as_mesh", quiet(ff.export_as_mesh))
+            if not ok: return
+            if not check_export(case, poly, snap, var, V, medges, order, n_el, elements, ctx, hist):
                 return
-        chi = ref.euler()
-        n_unflagged = int(np.sum(idxs == 0))
-        tol = n_unflagged * 1e-3 * 2 / math.pi + 1e-6
-        ctx.label("singular-interior>0" if any(idxs[v] != 0 for v in range(nV) if v not in bv) else "singular-interior=0")
-        if not ctx.check(abs(float(np.sum(idxs)) - 4 * chi) <= tol, "index-sum",
-                         f"indices sum to {float(np.sum(idxs))!r}, expected 4*chi = {4 * chi} (tolerance {tol:.2e}, {n_unflagged} "
-                         f"unflagged vertices, order {order})"):
+        elif elements == "faces":
+            idxs = read_singularities(case, ff, mesh, ref, order, ctx, hist)
+            if idxs is None:
+                return
+            if first_sing is None:
+                first_sing = idxs
+                out["sing"] = idxs
+            else:
+                j = int(np.argmax(np.abs(idxs - first_sing)))
+                if not ctx.check(abs(idxs[j] - first_sing[j]) <= 1e-6, "singularities-change-with-history",
+                                 f"{hist}index of vertex {j} is {idxs[j]!r}, the first flag_singularities() gave {first_sing[j]!r}"):
+                    return
+    if len(ops) > 1 or ops != ["flag"]:
+        var2 = np.array(ff.var, dtype=complex)
+        if not ctx.check(var2.shape == var.shape and bool(np.all(var2 == var)), "readout-modified-field",
+                         f"var changed while reading the field out with {ops}"):
             return
-        out["sing"] = idxs
+        if snap is not None:
+            snap2 = snapshot_connection(ff, n_el)
+            dX = float(np.max(np.abs(snap2["X"] - snap["X"]))) if n_el else 0.0
+            dY = float(np.max(np.abs(snap2["Y"] - snap["Y"]))) if n_el else 0.0
+            if not ctx.check(dX == 0 and dY == 0 and snap2["T"] == snap["T"], "readout-modified-connection",
+                             f"the connection's local bases / transports changed while reading the field out with {ops} "
+                             f"(max change of X {dX:.3e}, of Y {dY:.3e})"):
+                return
     out.update(var=var, var0=var0, fixed=fixed, free=free, cond=cond, ff=ff)
     return out
 
@@ -717,6 +823,7 @@ def fn_sequence(case, ctx):
     if as_int:
         ctx.label("int-coords")
     sing_sets = []
+    earlier = []
     for k, cfg in enumerate(steps):
         c = dict(cfg, V=V, F=F, scale=float(case.get("scale", 1.0)))
         where = f"step {k} of {[(x['elements'][0], x['order'], int(x['features'])) for x in steps]} on one mesh object: "
@@ -729,6 +836,7 @@ def fn_sequence(case, ctx):
             # history step only (vertex-field singularity values are not asserted): must not disturb what follows
             ok, _ = ctx.call("flag_singularities:vertices", quiet(r["ff"].flag_singularities))
             if not ok: return
+        earlier.append((k, c, r))
         fresh_mesh, _ = build_mesh(case)
         rf = check_field(c, fresh_mesh, ref, ctx, f"(fresh mesh, options of step {k}) ", rng_seed=1000 + k)
         if rf is None:
@@ -754,7 +862,112 @@ def fn_sequence(case, ctx):
                 return
             sing_sets.append(frozenset(np.where(r["sing"] != 0)[0].tolist()))
     ctx.label("distinct-singular-sets" if len(set(sing_sets)) >= 2 else "same-singular-sets")
+    # independent field objects: the earlier ones must be what they were after the later ones were computed on the same mesh
+    for (k, c, r) in earlier[:-1]:
+        ff = r["ff"]
+        v2 = np.array(ff.var, dtype=complex)
+        if not ctx.check(v2.shape == r["var"].shape and bool(np.all(v2 == r["var"])), "earlier-field-disturbed",
+                         f"var of the field of step {k} changed while later fields were computed on the same mesh"):
+            return
+        if c["elements"] == "faces" and r["sing"] is not None:
+            idxs = read_singularities(c, ff, mesh, ref, int(c["order"]), ctx, f"step {k} flagged again after the later steps: ")
+            if idxs is None:
+                return
+            j = int(np.argmax(np.abs(idxs - r["sing"])))
+            if not ctx.check(abs(idxs[j] - r["sing"][j]) <= 1e-6, "earlier-field-disturbed",
+                             f"step {k} flagged again after the later steps: index of vertex {j} is {idxs[j]!r}, it was {r['sing'][j]!r}"):
+                return
+            ctx.label("earlier-field-reflagged")
     mesh_unchanged(case, mesh, ctx)
+
+
+# ----------------------------------------------------------------------------------------------- sub-check: large
+
+@st.composite
+def large_case(draw):
+    """a jittered panel with more than 2500 free elements (well above any plausible size threshold inside the solver)"""
+    elements = draw(st.sampled_from(["vertices", "vertices", "faces"]))
+    nu = draw(st.integers(52, 60)); nv = draw(st.integers(52, 56))
+    if elements == "faces":
+        nu = draw(st.integers(38, 44)); nv = draw(st.integers(38, 42))
+    return {"nu": nu, "nv": nv, "bits": draw(st.lists(st.integers(0, 1), min_size=1, max_size=12)), "jitter_seed": draw(st.integers(0, 1000)),
+            "amp": draw(st.sampled_from([0.05, 0.0, 0.1])), "roof": draw(st.integers(0, 3)) == 3,
+            "elements": elements, "order": draw(ORDERS), "features": draw(st.booleans()), "n_smooth": 0, "alpha": 1.0,
+            "cotan": draw(st.booleans()), "smooth_normals": draw(st.booleans()), "cad": False}
+
+
+def fn_large(case, ctx):
+    """n_smooth = 0 on a big bordered mesh: unit modulus, constraints kept, and the normalised harmonic extension recomputed
+    with a sparse direct solve of the library's connection Laplacian (error bound from the extreme eigenvalues)."""
+    import scipy.sparse as sp
+    import scipy.sparse.linalg as spl
+    import mouette as M
+    nu, nv = int(case["nu"]), int(case["nv"])
+    folds = [nu // 2] if case.get("roof") else []
+    V, F = tri_grid(nu, nv, case["bits"], folds, 1.0, True)
+    if case["amp"]:
+        Vj = G.jitter(V, int(case["jitter_seed"]), float(case["amp"]))
+        if _angles_ok(Vj, F):
+            V = Vj
+    V = [[float(x) for x in v] for v in V]
+    c = dict(case, V=V, F=F)
+    ref = SurfRef(len(V), F)
+    elements, order = case["elements"], int(case["order"])
+    n_el = len(V) if elements == "vertices" else len(F)
+    mesh = surface_from(V, F)
+    ok, ff = ctx.call("construct", make_ff, c, mesh)
+    if not ok: return
+    ok, _ = ctx.call("initialize", ff.initialize)
+    if not ok: return
+    var0 = np.array(ff.var, dtype=complex).copy()
+    medges = lib_edges(mesh)
+    fe, fixed, free = partition(c, mesh, ff, ref, medges)
+    ctx.label("elements=" + elements, "order=%d" % order, "cotan=%s" % bool(case["cotan"]), "features=%s" % bool(case["features"]),
+              "free>3500" if len(free) > 3500 else "free>2500" if len(free) > 2500 else "free<=2500")
+    ctx.nontrivial(len(free) > 2500)
+    if elements == "vertices":
+        Ls = M.operators.laplacian(mesh, cotan=bool(case["cotan"]), connection=ff.conn, order=order)
+    else:
+        Ls = M.operators.laplacian_triangles(mesh, cotan=bool(case["cotan"]), connection=ff.conn, order=order)
+    Ls = sp.csc_matrix(Ls).astype(complex)
+    fr, fx = np.array(free, dtype=int), np.array(fixed, dtype=int)
+    LI = Ls[fr, :][:, fr].tocsc()
+    rhs = -(Ls[fr, :][:, fx] @ var0[fx])
+    x = spl.splu(LI).solve(rhs)
+    H = ((LI + LI.conj().T) / 2).tocsc()
+    v0 = np.ones(len(free), dtype=complex)
+    try:
+        lmax = float(spl.eigsh(H, k=1, which="LA", v0=v0, tol=1e-4, return_eigenvectors=False)[0])
+        lmin = float(spl.eigsh(H, k=1, sigma=0, which="LM", v0=v0, tol=1e-4, return_eigenvectors=False)[0])
+    except Exception:
+        lmin = lmax = float("nan")
+    ok, _ = ctx.call("run", ff.run)
+    if not ok: return
+    var = np.array(ff.var, dtype=complex)
+    if not ctx.check(var.shape == (n_el,) and bool(np.all(np.isfinite(np.abs(var)))), "var-shape", f"var has shape {var.shape} / non-finite entries"):
+        return
+    mod = np.abs(var)
+    bad = np.where(np.abs(mod - 1) > TOL_UNIT)[0]
+    if not ctx.check(len(bad) == 0, "not-unit", f"large mesh ({len(free)} free {elements}): |var| != 1 on {bad[:8].tolist()}: {mod[bad][:8].tolist()}"):
+        return
+    d = np.abs(var[fx] - var0[fx])
+    if not ctx.check(float(np.max(d)) <= 1e-9, "constraint-moved", f"large mesh: constrained {elements[:-1]} {fixed[int(np.argmax(d))]} moved by {float(np.max(d)):.3e}"):
+        return
+    if not (np.isfinite(lmin) and lmin > 0 and lmax / lmin <= 1e7):
+        ctx.discard("large system: extreme eigenvalues not usable for an error bound")
+        return
+    cond = lmax / lmin
+    res = float(np.max(np.abs(LI @ x - rhs)))
+    err = (EPS * cond * float(np.max(np.abs(x))) + res / lmin) / np.maximum(np.abs(x), 1e-300)
+    okm = (np.abs(x) >= 1e-6) & (err <= TOL_SOLVE / 10)
+    ctx.label("compared>=90%" if np.mean(okm) >= 0.9 else "compared<90%")
+    exp_ = x[okm] / np.abs(x[okm])
+    got = var[fr[okm]]
+    dd = np.abs(exp_ - got)
+    k = int(np.argmax(dd))
+    ctx.check(float(dd[k]) <= TOL_SOLVE, "not-harmonic-extension",
+              f"large mesh ({len(free)} free {elements}, order {order}, cotan {bool(case['cotan'])}): {elements[:-1]} {int(fr[okm][k])}: var = {got[k]}, "
+              f"normalised solution of L_II x = -L_IB var_B is {exp_[k]} (|x| = {abs(x[okm][k]):.3e}, cond ~ {cond:.2e}, difference {float(dd[k]):.3e})")
 
 
 # ----------------------------------------------------------------------------------------------- sub-check: renumbering
@@ -1053,6 +1266,7 @@ def self_test():
 SUBCHECKS = [
     SubCheck("field", field_case(), fn_field, quick=2000, thorough=8000),
     SubCheck("sequence", sequence_case(), fn_sequence, quick=320, thorough=1500),
+    SubCheck("large", large_case(), fn_large, quick=8, thorough=12, watchdog=(240, 900)),
     SubCheck("renumber_vertices", renumber_case("vertices"), fn_renumber, quick=400, thorough=1500),
     SubCheck("renumber_faces", renumber_case("faces"), fn_renumber, quick=400, thorough=1500),
     SubCheck("laplacian", laplacian_case(), fn_laplacian, quick=480, thorough=1500),
